@@ -40,11 +40,15 @@ func randAddr(r *vfh.Rand) netip.Prefix {
 		0xfe80_0000_0000_0000, 0xfe80_0000_0000_0000, 0x0000_0000_0000_0000, 0xff02_0000_0000_0000, 0xfc00_0000_0000_0000}
 	hi := vfh.Pick(r, his)
 	var lo uint64
-	switch r.Intn(4) {
+	switch r.Intn(6) {
 	case 0:
 		lo = uint64(r.Intn(4) + 1)
 	case 1: // EUI-64 pattern
 		lo = 0x0211_22ff_fe00_0000 | uint64(r.Intn(4))
+	case 4: // half of the pattern only: ff without fe
+		lo = 0x0211_22ff_0000_0000 | uint64(r.Intn(4))
+	case 5: // half of the pattern only: fe without ff
+		lo = 0x0211_2200_fe00_0000 | uint64(r.Intn(4))
 	case 2:
 		lo = r.Uint64()
 	default:
@@ -206,6 +210,8 @@ func c14Pool() []system.IP {
 		mkIP("10.0.0.1/24", flags{forever: true}),               // IPv4 (excluded)
 		mkIP("2001:db8::5/128", flags{stab: true}),              // same address as above, other mask and flags
 		mkIP("fc00::1/7", none),                                 // ULA, lowest
+		mkIP("fd00::211:22ff:ee33:4455/64", none),               // ff without fe: not EUI-64
+		mkIP("fd00::211:2200:fe33:4455/64", none),               // fe without ff: not EUI-64
 	}
 }
 
